@@ -124,6 +124,14 @@ def judge_refuse(ctx, case):
             r = node.ckd(index=i)
         elif via == "derive_path":
             r = node.derive_path(index_list=list(case["prefix"]) + [i])
+        elif via == "by_path_text":
+            # the request as TEXT on a watch-only wallet: whatever decorates the hardened component (blank, tab, newline
+            # after or before the marker, either marker letter, either root letter), a component that carries a hardened
+            # marker is either malformed or hardened - both must be refused, never derived as the normal index
+            from btc_hd_wallet.base_wallet import BaseWallet
+            w = BaseWallet.from_extended_key(pub.xpub(rb32.version_for("pub", case["testnet"], case.get("vpurpose", 44))))
+            comps = [str(c) for c in case["prefix"]] + [case["spelling"] % (i - H)]
+            r = w.by_path(case.get("root", "M") + "/" + "/".join(comps))
         elif via == "generate_children_straddle":
             r = node.generate_children(interval=(H - case.get("below", 1), i + 1))
             r = "list of %d nodes" % len(r)
@@ -354,7 +362,12 @@ def run(ctx):
             else:
                 case["index"] = rnd.randrange(H, 2 * H)
                 case["itag"] = "random"
-            case["via"] = rnd.choice(["ckd", "ckd", "derive_path", "generate_children", "generate_children_straddle"])
+            case["via"] = rnd.choice(["ckd", "ckd", "derive_path", "generate_children", "generate_children_straddle", "by_path_text"])
+            if case["via"] == "by_path_text":
+                case["prefix"] = [gen.index(rnd, hardened=False)[1] for _ in range(rnd.randrange(0, 3))]
+                case["spelling"] = rnd.choice(["%d'", "%dh", "%d' ", "%d'\n", "%d'\t", "%dh\r\n", "%dh ", " %d'", "%d '", "%d'\x0b", "%d'\u00a0", "%dH", "%d''"])
+                case["root"] = rnd.choice(["M", "M", "m"])
+                case["itag"] = "text:" + repr(case["spelling"])
             if case["via"] == "generate_children_straddle":
                 case["index"] = H + rnd.randrange(0, 3)
                 case["below"] = rnd.randrange(1, 4)
